@@ -1020,6 +1020,17 @@ func (p *Parser) evaluateVarDefinition(ctx context) (Statement, error) {
 	}
 	nameTokensLength := len(nameTokens)
 	firstNameToken := nameTokens[0]
+	names := []string{}
+
+	// A name must not occur twice on the left side.
+	for _, nameToken := range nameTokens {
+		name := nameToken.Value()
+
+		if slices.Contains(names, name) {
+			return nil, p.atError(fmt.Sprintf("variable %s is defined twice", name), nameToken)
+		}
+		names = append(names, name)
+	}
 
 	// Check if all variables are already defined.
 	if nameTokensLength > 1 {
@@ -1348,7 +1359,7 @@ func (p *Parser) evaluateParams(ctx context) ([]Variable, error) {
 		name := nameToken.Value()
 		_, exists := ctx.findVariable(name, p.prefix, false)
 
-		if exists {
+		if exists || slices.ContainsFunc(params, func(param Variable) bool { return param.Name() == name }) {
 			return params, fmt.Errorf("scope already contains a variable with the name %s", name)
 		}
 		valueType, err := p.evaluateValueType()
@@ -1820,6 +1831,10 @@ func (p *Parser) evaluateFor(ctx context) (Statement, error) {
 				return nil, err
 			}
 			valueVarName = nextToken.Value()
+
+			if valueVarName == indexVarName {
+				return nil, p.atError(fmt.Sprintf("variable %s is defined twice", valueVarName), nextToken)
+			}
 		}
 		nextToken = p.eat()
 		hasNamedVar := len(valueVarName) > 0
